@@ -28,8 +28,9 @@ RULE = ("(a) packaging: an entry point (rotation_matrix, number, array_like, zer
         "two units scaled differently.  distinct = distinct JSON case.")
 
 ASSUMPTIONS = [
-    "integer-typed numpy input (np.int64 scalars / int arrays) is not required to become "
-    "float (the repository's suite pins get_origin(dtype=int)); python ints are",
+    "integer-typed COORDINATE arrays are not required to become float (the repository's "
+    "suite pins get_origin(dtype=int)); integer-typed scalars (python int, np.int64, 0-d int "
+    "array) for angles / radii / lengths and integer matrices for sl2_iso / array_like are",
     "a one-element list is a different shape, not a packaging of a scalar",
     "NumPy versions: 2.5.3 (/venv) and, in the thorough tier, 2.4.6 (python3-vt); NumPy 1.x "
     "cannot be installed offline",
@@ -69,13 +70,24 @@ def pack_scalar(x, how):
         return np.float32(x)
     if how == "arr0d":
         return np.array(float(x))
+    if how == "npint":
+        if float(x) != int(x):
+            raise HarnessError("int packaging of non-integral value")
+        return np.int64(int(x))
+    if how == "arr0dint":
+        if float(x) != int(x):
+            raise HarnessError("int packaging of non-integral value")
+        return np.array(int(x))
     raise HarnessError(how)
 
 
 def scalar_packagings(x):
     p = ["float", "np64", "arr0d"]
     if float(x) == int(x):
-        p.append("int")
+        # integral values may arrive as python ints or as NumPy integer scalars / 0-d
+        # integer arrays: every entry point applies trigonometry / exponentials / float
+        # arithmetic to them (array_like defaults to integer_type=False for this reason)
+        p.extend(["int", "npint", "arr0dint"])
     if f32_exact(x):
         p.append("np32")
     return p
@@ -126,7 +138,7 @@ def _ep_standard_loxodromic(v, ctx):
 def _ep_loxodromic_direct(v, ctx):
     # parameter = 1 + |v| (integral when v is)
     if isinstance(v, np.ndarray):
-        pv = np.array(1.0 + abs(float(v)))
+        pv = np.array(1 + abs(v.item()))
     else:
         pv = type(v)(1 + abs(v))
     iso = hyperbolic.Isometry.standard_loxodromic(3, pv)
@@ -275,7 +287,7 @@ def body_scalar(case, ctx):
                   dtype=str(r.dtype))
         ctx.check(np.all(np.isfinite(r)), ep + ": reference output finite", x=x)
     got = fn(pack_scalar(x, how), ctx)
-    if how in ("float", "int", "np64", "arr0d", "np32"):
+    if how in ("float", "int", "np64", "arr0d", "np32", "npint", "arr0dint"):
         for g in got:
             g = np.asarray(g)
             if ep != "number":
@@ -429,9 +441,10 @@ def array_case(draw):
             a.append([r * math.cos(th), r * math.sin(th)])
     elif dom == "o2":
         a = draw(gen.orthogonal_matrix(2))
-    how = draw(st.sampled_from(hows + (["listint"] if integral and ep in
+    how = draw(st.sampled_from(hows + (["listint", "ndint"] if integral and ep in
                                        ("sl2_iso", "projective.Point(chart)",
-                                        "projective_coords/affine_coords") else [])))
+                                        "projective_coords/affine_coords", "array_like")
+                                       else [])))
     return dict(ep=ep, a=a, how=how)
 
 
@@ -452,7 +465,7 @@ def body_array(case, ctx):
     got = fn(packed, ctx)
     for g in got:
         g = np.asarray(g)
-        if how != "listint":
+        if how not in ("listint", "ndint") or ep in ("sl2_iso", "array_like"):
             ctx.check(g.dtype.kind in "fc", "%s(%s): floating output" % (ep, how),
                       dtype=str(g.dtype))
     _compare(ctx, ep, got, ref, how_cmp)
